@@ -14,35 +14,19 @@ ASSUMPTIONS = [
     "the synchronous driver is validated against the public-API driver on all short histories (conformance scenarios) "
     "and on every reported violation",
 ]
-SPEC = {'conf_quick': [('K4', 3)],
- 'conf_thorough': [('K4', 4), ('K6', 3)],
- 'quick': [('K1', 'lend', 4),
-           ('K15', 'lend', 4),
-           ('K12', 'lend', 4),
-           ('K4', 'lend', 4),
-           ('K2', 'std', 3),
-           ('K6', 'lend', 4),
-           ('K8', 'small', 3),
-           ('K0', 'small', 3)],
- 'thorough': [('K1', 'std', 4),
-              ('K2', 'std', 4),
-              ('K3', 'std', 4),
-              ('K4', 'std', 4),
-              ('K6', 'std', 4),
-              ('K8', 'std', 4),
-              ('K10', 'std', 4),
-              ('K12', 'std', 4),
-              ('K13', 'std', 4),
-              ('K7', 'std', 3),
-              ('K0', 'std', 3),
-              ('K4', 'small', 5),
-              ('K2', 'small', 5),
-              ('K1', 'lend', 5),
-              ('K12', 'lend', 5),
-              ('K4', 'lend', 5),
-              ('K6', 'lend', 5),
-              ('K10', 'lend', 5),
-              ('K14', 'lend', 5)]}
+SPEC = {
+    'quick': [('K1', 'lend', 4),
+              ('K15', 'lend', 4),
+              ('K12', 'lend', 4),
+              ('K4', 'lend', 4),
+              ('K2', 'std', 3),
+              ('K6', 'lend', 4),
+              ('K8', 'small', 3),
+              ('K0', 'small', 3)],
+    'conf_quick': [('K4', 3)],
+    'conf_thorough': [('K4', 3), ('K6', 3)],
+}
+SPEC['thorough'] = X.thorough_spec(SPEC['quick'], [('K1', 'lend'), ('K12', 'lend'), ('K4', 'lend'), ('K15', 'lend'), ('K6', 'lend')])
 BOUNDS = {t: dict(spec=SPEC[t]) for t in ("quick", "thorough")}
 EXPLANATION = ("explicit-state BFS over operation histories with state de-duplication; every transition executes the "
                "real exchange; traces_validated_against_impl = histories executed through BOTH drivers (sync and "
